@@ -432,7 +432,9 @@ func (s *sys) countEnd(last []uint64) {
 
 // attempt runs one history; next yields the events.  It returns false if the history was cut because a select took
 // the other case than the event asked for.
-func attempt(t *testing.T, w *hist.W, id string, next func(s *sys, k int) []uint64, onEnd func(s *sys)) (complete bool) {
+// soft (optional): asked when an event is not applicable; true = drop that event and go on with the next one (the end of a
+// corpus prefix in a random history) instead of ending the history.
+func attempt(t *testing.T, w *hist.W, id string, next func(s *sys, k int) []uint64, onEnd func(s *sys), soft func() bool) (complete bool) {
 	complete = true
 	synctest.Test(t, func(t *testing.T) {
 		s := newSys(w)
@@ -447,6 +449,9 @@ func attempt(t *testing.T, w *hist.W, id string, next func(s *sys, k int) []uint
 			w.Flush()
 			obs, ok, actual := s.exec(ev)
 			if !ok {
+				if soft != nil && soft() {
+					continue
+				}
 				// the event is not applicable on the implementation (the history has diverged earlier)
 				w.Count("fixed.truncated", 1)
 				break
@@ -472,21 +477,53 @@ func attempt(t *testing.T, w *hist.W, id string, next func(s *sys, k int) []uint
 
 const maxAttempts = 24
 
+// corpusMotifs: the corpus histories, used as PREFIXES of a share of the random histories (a random cut of a random
+// corpus history is replayed first, then generation continues at random from the situation it reached): the corner
+// cases that were worth writing down are then also explored in their neighbourhood, not only replayed verbatim.
+var corpusMotifs []hist.H
+
 func runRandom(t *testing.T, w *hist.W, h int) {
 	for att := 0; att < maxAttempts; att++ {
 		r := hist.Rng(h)
 		p := genParams(r)
 		steps := 8 + r.IntN(50)
+		// every attempt draws the same prefix (same PRNG): a retry repeats the same history
+		var prefix [][]uint64
+		if len(corpusMotifs) > 0 && r.IntN(6) == 0 {
+			m := corpusMotifs[r.IntN(len(corpusMotifs))]
+			if len(m.Evs) > 0 {
+				prefix = m.Evs[:1+r.IntN(len(m.Evs))]
+			}
+		}
+		if prefix != nil && att == 0 {
+			w.Count("random_with_corpus_prefix", 1)
+		}
 		id := fmt.Sprintf("r%d", h)
 		if att > 0 {
 			id = fmt.Sprintf("r%d.retry%d", h, att)
 		}
+		pi, inPrefix, generated := 0, prefix != nil, 0
 		if attempt(t, w, id, func(s *sys, k int) []uint64 {
-			if k >= steps {
+			if inPrefix {
+				if pi < len(prefix) && len(prefix[pi]) > 0 {
+					pi++
+					return append([]uint64{}, prefix[pi-1]...)
+				}
+				inPrefix = false
+			}
+			if generated >= steps {
 				return nil
 			}
+			generated++
 			return s.gen(r, p)
-		}, nil) {
+		}, nil, func() bool {
+			// a prefix event that is not applicable ends the prefix; generation goes on from the situation reached
+			if inPrefix {
+				inPrefix = false
+				return true
+			}
+			return false
+		}) {
 			return
 		}
 	}
@@ -504,7 +541,7 @@ func runFixed(t *testing.T, w *hist.W, id string, evs [][]uint64) {
 				return nil
 			}
 			return evs[k]
-		}, nil) {
+		}, nil, nil) {
 			return
 		}
 	}
@@ -527,7 +564,8 @@ func TestCCall(t *testing.T) {
 		}
 		return
 	}
-	for _, h := range hist.LoadCorpus(*hist.Corpus) {
+	corpusMotifs = hist.LoadCorpus(*hist.Corpus)
+	for _, h := range corpusMotifs {
 		runFixed(t, w, h.ID, h.Evs)
 		w.Count("corpus", 1)
 	}
